@@ -211,8 +211,11 @@ func CreateAuthenticators(cfg AuthConfig) []Authenticator {
 		if len(cfg.HashedUsers) > 0 {
 			creds := HashedCredentials(cfg.HashedUsers)
 			auths = append(auths, NewUserPassAuthenticator(creds))
-		} else if len(cfg.Users) > 0 {
-			// Fall back to plaintext credentials (deprecated)
+		} else {
+			// Fall back to plaintext credentials (deprecated). Also when no user
+			// has a usable password: the authenticator over the empty user set
+			// rejects everyone, instead of leaving the handler without
+			// authenticators (NewHandler would fall back to "no authentication").
 			creds := StaticCredentials(cfg.Users)
 			auths = append(auths, NewUserPassAuthenticator(creds))
 		}
